@@ -37,11 +37,15 @@
 (*   only if they differ from the ones it remembers having merged (identRecord).           *)
 (*   ForgetIdentRecord = TRUE is the repaired code: replacing the dictionary also forgets   *)
 (*   that record.  FALSE is the code as it was: from the second update on the dictionary    *)
-(*   lacks the identifiers.  (Every document is treated as a source file whose identifiers  *)
-(*   do not change; dictHasIdents is part of what a publish was computed from.)            *)
+(*   lacks the identifiers.  Every document is treated as a source file and every text      *)
+(*   has its own identifiers: dictIdents[u] is the set of texts whose identifiers the       *)
+(*   document's dictionary holds, and it is part of what a publish was computed from (it    *)
+(*   must be exactly the current text's).  IdentsAccumulate = TRUE is a deviation a seeded   *)
+(*   change introduced: identifiers are merged into the dictionary the document already     *)
+(*   has, so those of earlier versions of the text linger.                                   *)
 EXTENDS Naturals, Sequences, FiniteSets, TLC
 
-CONSTANTS Urls, Texts, Cfgs, MaxMsgs, MaxInFlight, VersionGuard, RefreshFromMemory, ConfigRebuilds, ForgetIdentRecord
+CONSTANTS Urls, Texts, Cfgs, MaxMsgs, MaxInFlight, VersionGuard, RefreshFromMemory, ConfigRebuilds, ForgetIdentRecord, IdentsAccumulate
 
 VARIABLES clientText,   \* newest text the client sent per url ("none": not open)
           docText,      \* server's document state per url ("none": no entry); with the version it came from
@@ -49,22 +53,29 @@ VARIABLES clientText,   \* newest text the client sent per url ("none": not open
           clientCfg,    \* the configuration the client holds (and answers workspace/configuration with)
           serverCfg,    \* the server's copy
           docCfg,       \* the configuration each document's linter was built with
-          dictHasIdents,\* does the document's dictionary hold the document's identifiers?
-          identRecord,  \* does the document state remember having merged them?
+          dictIdents,   \* whose identifiers (which texts') the document's dictionary holds
+          identRecord,  \* which text's identifiers the document state remembers having merged ("none")
           disk,         \* contents of the file behind each url ("none": never saved)
           hs,           \* in-flight handlers: sequence of [kind, u, t, ver, pc]
           sent,         \* number of messages sent
           overlapped    \* history flag: two handlers for the same url were in flight together
-lsvars == <<clientText, docText, published, clientCfg, serverCfg, docCfg, dictHasIdents, identRecord, disk, hs, sent, overlapped>>
-cfgvars == <<clientCfg, serverCfg, docCfg, dictHasIdents, identRecord>>
-idvars == <<dictHasIdents, identRecord>>
+lsvars == <<clientText, docText, published, clientCfg, serverCfg, docCfg, dictIdents, identRecord, disk, hs, sent, overlapped>>
+cfgvars == <<clientCfg, serverCfg, docCfg, dictIdents, identRecord>>
+idvars == <<dictIdents, identRecord>>
 C0 == CHOOSE c \in Cfgs : TRUE
-Empty == [t |-> "none", c |-> "-", i |-> TRUE]
+Empty == [t |-> "none", c |-> "-", i |-> {}]
+\* update of a document state's dictionary for text t: (old identifiers, old record, is the state new?) -> <<identifiers, record>>
+IdentUpdate(ids, rec, isNew, t) ==
+  LET replaced == ~isNew /\ ids # {}
+      ids1 == IF isNew \/ replaced THEN {} ELSE ids
+      rec1 == IF isNew THEN "none" ELSE IF replaced /\ ForgetIdentRecord THEN "none" ELSE rec
+  IN IF rec1 = t THEN <<ids1, rec1>>
+     ELSE <<(IF IdentsAccumulate /\ ~isNew THEN ids ELSE ids1) \cup {t}, t>>
 
 LInit == /\ clientText = [u \in Urls |-> "none"] /\ docText = [u \in Urls |-> [t |-> "none", v |-> 0]]
          /\ published = [u \in Urls |-> Empty] /\ disk = [u \in Urls |-> "none"]
          /\ clientCfg = C0 /\ serverCfg = C0 /\ docCfg = [u \in Urls |-> C0]
-         /\ dictHasIdents = [u \in Urls |-> FALSE] /\ identRecord = [u \in Urls |-> FALSE]
+         /\ dictIdents = [u \in Urls |-> {}] /\ identRecord = [u \in Urls |-> "none"]
          /\ hs = <<>> /\ sent = 0 /\ overlapped = FALSE
 
 SameUrlInFlight(u) == \E i \in DOMAIN hs : hs[i].u = u \/ hs[i].kind = "config" \/ u = "*"
@@ -117,24 +128,23 @@ StepSet(i) ==
      \* remembers having done so
      /\ LET dropped == h.kind # "open" /\ cur.t = "none"
             isNew == h.kind = "open" /\ cur.t = "none"
-            replaced == ~isNew /\ dictHasIdents[h.u]
-            has1 == IF isNew \/ replaced THEN FALSE ELSE dictHasIdents[h.u]
-            rec1 == IF isNew THEN FALSE ELSE IF replaced /\ ForgetIdentRecord THEN FALSE ELSE identRecord[h.u]
-        IN IF dropped THEN UNCHANGED idvars
-           ELSE /\ dictHasIdents' = [dictHasIdents EXCEPT ![h.u] = IF rec1 THEN has1 ELSE TRUE]
-                /\ identRecord' = [identRecord EXCEPT ![h.u] = TRUE]
+            stale == VersionGuard /\ cur.v > h.ver
+            r == IdentUpdate(dictIdents[h.u], identRecord[h.u], isNew, h.t)
+        IN IF dropped \/ stale THEN UNCHANGED idvars
+           ELSE /\ dictIdents' = [dictIdents EXCEPT ![h.u] = r[1]]
+                /\ identRecord' = [identRecord EXCEPT ![h.u] = r[2]]
   /\ UNCHANGED <<clientText, published, disk, sent, overlapped, clientCfg, serverCfg>>
 \* publish_diagnostics: lints whatever the document state holds at this moment
 StepPub(i) ==
   /\ hs[i].pc = "pub" /\ hs' = Remove(i)
   /\ published' = [published EXCEPT ![hs[i].u] = IF docText[hs[i].u].t = "none" THEN Empty
-                                               ELSE [t |-> docText[hs[i].u].t, c |-> docCfg[hs[i].u], i |-> dictHasIdents[hs[i].u]]]
+                                               ELSE [t |-> docText[hs[i].u].t, c |-> docCfg[hs[i].u], i |-> dictIdents[hs[i].u]]]
   /\ UNCHANGED <<clientText, docText, disk, sent, overlapped, cfgvars>>
 StepClose(i) ==
   /\ hs[i].pc = "close" /\ hs' = Remove(i)
   /\ docText' = [docText EXCEPT ![hs[i].u] = [t |-> "none", v |-> 0]]
   /\ published' = [published EXCEPT ![hs[i].u] = Empty]
-  /\ dictHasIdents' = [dictHasIdents EXCEPT ![hs[i].u] = FALSE] /\ identRecord' = [identRecord EXCEPT ![hs[i].u] = FALSE]
+  /\ dictIdents' = [dictIdents EXCEPT ![hs[i].u] = {}] /\ identRecord' = [identRecord EXCEPT ![hs[i].u] = "none"]
   /\ UNCHANGED <<clientText, disk, sent, overlapped, clientCfg, serverCfg, docCfg>>
 \* didChangeConfiguration: store the announced settings ...
 StepStore(i) == /\ hs[i].pc = "store" /\ Advance(i, "rebuild") /\ serverCfg' = hs[i].c
@@ -154,13 +164,12 @@ StepEach(i) ==
   /\ LET u == Head(hs[i].todo) rest == Tail(hs[i].todo) IN
      /\ serverCfg' = clientCfg
      \* the re-processing is an update of an existing document state: the dictionary rule applies
-     /\ LET replaced == dictHasIdents[u]
-            rec1 == IF replaced /\ ForgetIdentRecord THEN FALSE ELSE identRecord[u]
-            has2 == IF docText[u].t = "none" THEN dictHasIdents[u] ELSE IF rec1 THEN FALSE ELSE TRUE
-        IN /\ dictHasIdents' = [dictHasIdents EXCEPT ![u] = IF replaced \/ ~rec1 THEN has2 ELSE dictHasIdents[u]]
-           /\ identRecord' = [identRecord EXCEPT ![u] = IF docText[u].t = "none" THEN identRecord[u] ELSE TRUE]
+     /\ LET r == IF docText[u].t = "none" THEN <<dictIdents[u], identRecord[u]>>
+                 ELSE IdentUpdate(dictIdents[u], identRecord[u], FALSE, docText[u].t)
+        IN /\ dictIdents' = [dictIdents EXCEPT ![u] = r[1]]
+           /\ identRecord' = [identRecord EXCEPT ![u] = r[2]]
            /\ published' = [published EXCEPT ![u] = IF docText[u].t = "none" THEN Empty
-                                                    ELSE [t |-> docText[u].t, c |-> docCfg[u], i |-> (IF replaced \/ ~rec1 THEN has2 ELSE dictHasIdents[u])]]
+                                                    ELSE [t |-> docText[u].t, c |-> docCfg[u], i |-> r[1]]]
      /\ hs' = IF rest = <<>> THEN Remove(i) ELSE [hs EXCEPT ![i].todo = rest]
   /\ UNCHANGED <<clientText, docText, disk, sent, overlapped, clientCfg, docCfg>>
 
@@ -173,7 +182,7 @@ LNext == \/ \E u \in Urls, t \in Texts : SendOpen(u, t) \/ SendChange(u, t)
 Quiescent == hs = <<>>
 \* C09: once everything has been processed, the last word on each document is its newest text
 LastWord == Quiescent => \A u \in Urls :
-   published[u] = (IF clientText[u] = "none" THEN Empty ELSE [t |-> clientText[u], c |-> clientCfg, i |-> TRUE])
+   published[u] = (IF clientText[u] = "none" THEN Empty ELSE [t |-> clientText[u], c |-> clientCfg, i |-> {clientText[u]}])
 \* ... which the code guarantees only when handlers for one document never overlap
 LastWordUnlessOverlapped == LastWord \/ overlapped
 
